@@ -101,12 +101,18 @@ class Setup:
 
     def fresh_ff(self, accept_all=False):
         """A new short-lived ff_via callable at every call (same truth table unless accept_all)."""
-        if accept_all:
-            return lambda e, v: True
+        # both kinds of filter are closures made by ONE factory (same code object, different closed-over
+        # behaviour): a cache keyed by the code object rather than by the callable would confuse them
         f, vi, li = self.f, self.vi, self.li
-        if f is None:
+        if f is None and not accept_all:
             return None
-        return lambda e, v: f(li[id(e)], vi[id(v)])
+
+        def make(fn):
+            return lambda e, v: fn(e, v)
+
+        if accept_all:
+            return make(lambda e, v: True)
+        return make(lambda e, v: f(li[id(e)], vi[id(v)]))
 
     def kw(self, res=False):
         k = dict(direction_sensitive=self.d, unknown_handling=self.u, ff_via=self.ff)
